@@ -17,7 +17,7 @@ NOT_YET = {}
 PROPS = {
     "C06": {
         "suites": [{"name": "param", "quick": 1500, "thorough": 60000}],
-        "level_text": "12 Lean theorems about the model of parameter.rs over the reals: closed form "
+        "level_text": "Lean theorems about the model of parameter.rs over the reals: closed form "
                       "start + (target-start)*ease(T/D) for every partition of time into updates, exact landing on the target "
                       "with the finished flag raised exactly once, holding the target for ever, no overshoot for the built-in "
                       "easings, zero-duration tweens, retargeting from the current value, chunk continuity, delayed and clock "
@@ -33,7 +33,7 @@ PROPS = {
     },
     "C19": {
         "suites": [{"name": "units", "quick": 3000, "thorough": 150000}],
-        "level_text": "19 Lean theorems (monotone/exact decibel law, equal-power pan law, octave law, clock-speed unit "
+        "level_text": "Lean theorems (monotone/exact decibel law, equal-power pan law, octave law, clock-speed unit "
                       "consistency, clock-time fraction/add-sub/no-wrap/order, easing endpoints+monotonicity for all 7 easings, "
                       "mapping clamping) proved over the reals for all inputs; the same definitions run as a Float twin and agree "
                       "bit-for-bit with kira on every generated op",
